@@ -76,6 +76,15 @@ REWRITES = {
     "string_len": ("re", r"\btemp_text\.len\(\)", r"string_len(&temp_text)", "String::len (byte length) — shim with the std call"),
     "flat_map_collect": ("chain_fmc", "", "", "xs.iter().flat_map(f).collect() -> shim with the same std body (R8)"),
     "map_or_inline": ("opt_map_or", "", "", "Option::map_or(default, f) inlined as its std definition `match self { Some(x) => f(x), None => default }`"),
+    "map_or_else_inline": ("opt_map_or", "else", "", "Option::map_or_else(d, f) inlined as its std definition `match self { Some(x) => f(x), None => d() }`"),
+    "string_eq_fields": ("re", r"\bp\.name\.value == ident\.value\b", r"string_eq(&p.name.value, &ident.value)", "String == String has no vstd spec -> shim with the std comparison"),
+    "identifier_value_clone": ("re", r"\bidentifier\.value\.clone\(\)", r"string_clone(&identifier.value)", "String::clone -> shim (r@ == s@)"),
+    "new_name_clone": ("re", r"\bnew_name\.clone\(\)", r"string_clone(&new_name)", "String::clone -> shim (r@ == s@)"),
+    "uri_clone": ("re", r"\buri\.clone\(\)", r"url_clone(&uri)", "Url::clone -> shim on the opaque stand-in (r == *u)"),
+    "ident_ne": ("re", r"\|i\| i != ident\b", r"|i| !ident_eq(i, ident)", "derived PartialEq of `Ident` (`!=` on two references) written as the structural comparison it resolves to (R1)"),
+    "map_map_collect": ("re", r"(?s)idents\s*\.into_iter\(\)\s*\.map\((\|identifier\|.*?)\)\s*\.map\((\|ident\|.*?)\)\s*\.collect\(\)", r"vec_map_map_collect(idents, \1, \2)", "v.into_iter().map(f).map(g).collect() -> shim with the same std body (R8)"),
+    "map_filter_map_collect": ("re", r"(?s)identifiers\s*\.into_iter\(\)\s*\.map\((\|identifier\|.*?)\)\s*\.filter\((\|i\|.*?)\)\s*\.map\((\|i\|.*?)\)\s*\.collect\(\)", r"vec_map_filter_map_collect(identifiers, \1, \2, \3)", "v.into_iter().map(f).filter(p).map(g).collect() -> shim with the same std body (R8)"),
+    "workspace_edit_single": ("re", r"(?s)WorkspaceEdit \{\s*changes: Some\(HashMap::from\(\[\(uri, text_edits\)\]\)\),\s*\.\.Default::default\(\)\s*\}", r"workspace_edit_single(uri, text_edits)", "WorkspaceEdit { changes: Some(HashMap::from([(uri, edits)])), ..Default::default() } -> shim with that body on an opaque stand-in: the edit of one document"),
     "box_as_ref": ("re", r"\bboxed\.as_ref\(\)", r"&**boxed", "Box::as_ref on &Box<T> replaced by its std body `&**self` (no vstd spec; generic over the allocator)"),
     "self_name_clone_to_callee": ("re", r"self\.name\.value\.clone\(\)", r"string_clone(&callee.value)", "captured field path `self.name` of the lifted loop body becomes the parameter `callee` (R6); String::clone -> shim"),
     "ref_ne": ("re", r"\barg_type != param_type\b", r"!datatype_eq(arg_type, param_type)", "`!=` on two `&DataType` (PartialEq for references) written as the derived comparison it resolves to"),
@@ -414,7 +423,8 @@ def apply_rewrite(name, text):
         return out, {"rewrite": name, "why": why, "sites": sites}
     if spec[0] == "opt_map_or":
         why = spec[3]
-        pat = re.compile(r"\.\s*map_or\s*\(")
+        is_else = spec[1] == "else"
+        pat = re.compile(r"\.\s*map_or_else\s*\(" if is_else else r"\.\s*map_or\s*\(")
         out, sites, pos = text, [], 0
         while True:
             m = pat.search(out, pos)
@@ -444,7 +454,7 @@ def apply_rewrite(name, text):
             if not cm:
                 pos = k
                 continue
-            new = f"match {recv} {{ Some({cm.group(1)}) => {cm.group(2)}, None => {default} }}"
+            new = f"match {recv} {{ Some({cm.group(1)}) => {cm.group(2)}, None => {default + '()' if is_else else default} }}"
             sites.append({"from": out[rs:k][:100], "to": new[:100]})
             out = out[:rs] + new + out[k:]
             pos = rs + 6
